@@ -882,14 +882,34 @@ fn plan_tokens(p: &Plan, gx: Option<&Gx>, out: &mut Vec<String>) -> Option<()> {
             }
         },
         Plan::Project { input, projections } => {
+            // a variable that is passed through keeps its pseudo-columns (`alias.property`, `alias:Label`)
+            let mut hidden: Vec<(String, String)> = Vec::new();
+            if let Some(g) = gx {
+                for (alias, e) in projections {
+                    if let Expression::Variable(v) = e {
+                        for (a, name, _) in &g.props {
+                            if a == alias {
+                                let src = format!("{}{}", v, &name[a.len()..]);
+                                if !hidden.iter().any(|(n, _)| n == name) {
+                                    hidden.push((name.clone(), src));
+                                }
+                            }
+                        }
+                    }
+                }
+            }
             out.push("project".into());
-            out.push(projections.len().to_string());
+            out.push((projections.len() + hidden.len()).to_string());
             for (alias, e) in projections {
                 if !ident_ok(alias) {
                     return None;
                 }
                 out.push(alias.clone());
                 expr_tokens(e, &cx_of(input), out)?;
+            }
+            for (name, src) in hidden {
+                out.push(name);
+                out.push(format!("v{}", src));
             }
             plan_tokens(input, gx, out)?;
         }
@@ -1487,7 +1507,11 @@ impl<'a> QGen<'a> {
         }
     }
     fn query(&mut self) -> String {
-        let mut s = self.source();
+        let s = self.source();
+        self.tail(s)
+    }
+    /// the clauses after the first source: stages, then RETURN
+    fn tail(&mut self, mut s: String) -> String {
         let k = self.rng.below(4);
         for _ in 0..k {
             s += " ";
@@ -1682,6 +1706,201 @@ fn generate_c22(rng: &mut Rng, n: usize, _tier: &str, out: &mut dyn Write) {
             made += 1;
         }
     }
+    generate_c22_graph(rng, n / 6, _tier, out);
+}
+
+// ---- graph queries (fixed graphs of `build_graph`)
+
+/// a MATCH / CALL head: its text, the node variables it binds, its integer variables, and whether
+/// a WHERE can be appended
+struct Head {
+    text: &'static str,
+    nodes: &'static [&'static str],
+    ints: &'static [&'static str],
+    can_where: bool,
+}
+
+const HEADS: &[Head] = &[
+    Head { text: "MATCH (a:N)", nodes: &["a"], ints: &[], can_where: true },
+    // index-backed (graphs with an even number have an index on :N(k)); 'zz' matches nothing
+    Head { text: "MATCH (a:N {k: 's'})", nodes: &["a"], ints: &[], can_where: true },
+    Head { text: "MATCH (a:N {k: 'zz'})", nodes: &["a"], ints: &[], can_where: true },
+    Head { text: "MATCH (a:N {i: 2})", nodes: &["a"], ints: &[], can_where: true },
+    Head { text: "MATCH (a:N) WHERE a.k = 't'", nodes: &["a"], ints: &[], can_where: false },
+    Head { text: "MATCH (a:N {k: 's'})-[:R]->(b)", nodes: &["a", "b"], ints: &[], can_where: true },
+    Head { text: "MATCH (a:N {k: 't'})-[:R*1..3]->(b)", nodes: &["a", "b"], ints: &[], can_where: true },
+    // expansions
+    Head { text: "MATCH (a:N)-[:R]->(b)", nodes: &["a", "b"], ints: &[], can_where: true },
+    Head { text: "MATCH (a:N)<-[:R]-(b)", nodes: &["a", "b"], ints: &[], can_where: true },
+    Head { text: "MATCH (a:N)-[:R]-(b)", nodes: &["a", "b"], ints: &[], can_where: true },
+    Head { text: "MATCH (a:N)-[:R]->(b)-[:S]->(c:M)", nodes: &["a", "b", "c"], ints: &[], can_where: true },
+    Head { text: "MATCH (a:N)-[:R]->(b)<-[:R]-(c)", nodes: &["a", "b", "c"], ints: &[], can_where: true },
+    Head { text: "MATCH (a:N)-[r:R]->(b) WITH a, r MATCH (a)-[r]->(c)", nodes: &["c"], ints: &[], can_where: true },
+    // variable length
+    Head { text: "MATCH (a:N)-[:R*1..2]->(b)", nodes: &["a", "b"], ints: &[], can_where: true },
+    Head { text: "MATCH (a:N)-[:R*0..1]->(b)", nodes: &["a", "b"], ints: &[], can_where: true },
+    Head { text: "MATCH (a:N)-[:R*2..3]->(b)", nodes: &["a", "b"], ints: &[], can_where: true },
+    Head { text: "MATCH (a:N)<-[:R*1..2]-(b)", nodes: &["a", "b"], ints: &[], can_where: true },
+    Head { text: "MATCH (a:N)-[:R*1..2]-(b)", nodes: &["a", "b"], ints: &[], can_where: true },
+    Head { text: "MATCH (a:N)-[:R*1..2]->(b)-[:S]->(c:M)", nodes: &["a", "b", "c"], ints: &[], can_where: true },
+    // OPTIONAL MATCH, with and without WHERE
+    Head { text: "MATCH (a:N) OPTIONAL MATCH (a)-[:R]->(b)", nodes: &["a", "b"], ints: &[], can_where: false },
+    Head { text: "MATCH (a:N) OPTIONAL MATCH (a)-[:R]->(b) WHERE b.i > 2", nodes: &["a", "b"], ints: &[], can_where: false },
+    Head { text: "MATCH (a:N) OPTIONAL MATCH (a)-[:S]->(b:M) WHERE b.i = 0", nodes: &["a", "b"], ints: &[], can_where: false },
+    Head { text: "MATCH (a:N) OPTIONAL MATCH (a)-[:R]->(b) WHERE toBoolean(b.v)", nodes: &["a", "b"], ints: &[], can_where: false },
+    Head { text: "MATCH (a:N) OPTIONAL MATCH (a)-[:R*1..2]->(b) WHERE b.i < 2", nodes: &["a", "b"], ints: &[], can_where: false },
+    Head { text: "MATCH (a:N) OPTIONAL MATCH (a)<-[:R]-(b) WHERE toInteger(b.v) > 0", nodes: &["a", "b"], ints: &[], can_where: false },
+    Head { text: "MATCH (a:N {k: 's'}) OPTIONAL MATCH (a)-[:R]-(b) WHERE b.k = 't'", nodes: &["a", "b"], ints: &[], can_where: false },
+    // cartesian product
+    Head { text: "MATCH (a:N), (b:M)", nodes: &["a", "b"], ints: &[], can_where: true },
+    // procedure calls
+    Head { text: "UNWIND [1, 2, 3, 4] AS q CALL test.my.proc(q) YIELD out", nodes: &[], ints: &["q", "out"], can_where: false },
+    Head { text: "UNWIND [1, 2, 'x', 3] AS q CALL test.my.proc(q) YIELD out", nodes: &[], ints: &["q", "out"], can_where: false },
+    Head { text: "UNWIND [2, null, 1] AS q CALL test.my.proc(q) YIELD out", nodes: &[], ints: &["q", "out"], can_where: false },
+    Head { text: "MATCH (a:N) CALL test.my.proc(a.i) YIELD out", nodes: &["a"], ints: &["out"], can_where: false },
+    Head { text: "MATCH (a:N) CALL test.my.proc(toInteger(a.v)) YIELD out", nodes: &["a"], ints: &["out"], can_where: false },
+    Head { text: "MATCH (a:N)-[:R]->(b) CALL test.my.proc(b.i) YIELD out AS o2", nodes: &["a", "b"], ints: &["o2"], can_where: false },
+];
+
+/// a query over a fixed graph: a head, maybe a WHERE on node properties, a WITH that turns node
+/// properties into typed scalars, then the clauses of the graph-free generator
+fn graph_query(rng: &mut Rng, size: i64, min_limit: i64) -> String {
+    let h = &HEADS[rng.below(HEADS.len() as u64) as usize];
+    let mut s = h.text.to_string();
+    if h.can_where && !h.nodes.is_empty() && rng.chance(1, 3) {
+        let n = *rng.pick(h.nodes);
+        s += &match rng.below(6) {
+            0 => format!(" WHERE toBoolean({}.v)", n),
+            1 => format!(" WHERE {}.i > {}", n, rng.range(0, 3)),
+            2 => format!(" WHERE {}.v IS NULL", n),
+            3 => format!(" WHERE toInteger({}.v) > 0", n),
+            4 => format!(" WHERE {}.k = 's' OR {}.i = 1", n, n),
+            _ => format!(" WHERE NOT ({}.i = {})", n, rng.range(0, 3)),
+        };
+    }
+    let mut items: Vec<(String, Ty)> = Vec::new();
+    let want = 1 + rng.below(3);
+    for _ in 0..want {
+        let total = h.nodes.len() * 3 + h.ints.len();
+        let c = rng.below(total as u64) as usize;
+        let it = if c < h.nodes.len() * 3 {
+            let n = h.nodes[c / 3];
+            match c % 3 {
+                0 => (format!("{}.i", n), Ty::Int),
+                1 => (format!("{}.v", n), Ty::Any),
+                _ => (format!("{}.k", n), Ty::Any),
+            }
+        } else {
+            (h.ints[c - h.nodes.len() * 3].to_string(), Ty::Int)
+        };
+        if !items.iter().any(|(e, _)| *e == it.0) {
+            items.push(it);
+        }
+    }
+    let mut g = QGen::new(rng, size);
+    g.min_limit = min_limit;
+    let mut body = Vec::new();
+    for (e, t) in items {
+        let a = g.fresh();
+        body.push(format!("{} AS {}", e, a));
+        g.vars.push((a, t));
+    }
+    let distinct = if g.rng.chance(1, 6) { "DISTINCT " } else { "" };
+    s += &format!(" WITH {}{}", distinct, body.join(", "));
+    g.tail(s)
+}
+
+/// the fixed graphs a run uses
+fn graph_ids(tier: &str) -> Vec<u64> {
+    if tier == "thorough" { (1..=24).collect() } else { (1..=6).collect() }
+}
+
+fn emit_qg(out: &mut dyn Write, op: &str, db: &Db, cy: &str) -> bool {
+    match model_plan_db(db, cy) {
+        Some(toks) => {
+            writeln!(out, "{} ; {} ; {}", op, toks, cy).unwrap();
+            true
+        }
+        None => false,
+    }
+}
+
+/// C22 on the fixed graphs: every head once with a plain projection of a property that can raise,
+/// then random queries
+fn generate_c22_graph(rng: &mut Rng, n: usize, tier: &str, out: &mut dyn Write) {
+    register_fixtures();
+    let ids = graph_ids(tier);
+    let mut stats = (0usize, 0usize);
+    for id in &ids {
+        writeln!(out, "#case graph-{}", id).unwrap();
+        let (_dir, db) = build_graph(*id);
+        for h in HEADS {
+            let tails: Vec<String> = if let Some(n) = h.nodes.last() {
+                vec![
+                    format!("RETURN toBoolean({}.v) AS x", n),
+                    format!("RETURN DISTINCT toBoolean({}.v) AS x", n),
+                    format!("RETURN {}.i AS x ORDER BY toBoolean({}.v) LIMIT 2", n, n),
+                    format!("RETURN {}.i AS x SKIP 1", n),
+                ]
+            } else {
+                vec!["RETURN out AS x".to_string(), "RETURN DISTINCT q AS x ORDER BY x LIMIT 2".to_string()]
+            };
+            for t in tails {
+                stats.1 += 1;
+                if emit_qg(out, &format!("qg {}", id), &db, &format!("{} {}", h.text, t)) {
+                    stats.0 += 1;
+                }
+            }
+        }
+        let mut made = 0;
+        let mut tries = 0;
+        let per = n / ids.len() + 1;
+        while made < per && tries < per * 10 {
+            tries += 1;
+            let cy = graph_query(rng, 4, 0);
+            stats.1 += 1;
+            if emit_qg(out, &format!("qg {}", id), &db, &cy) {
+                made += 1;
+                stats.0 += 1;
+            }
+        }
+    }
+    let _ = stats;
+}
+
+/// C33 on the fixed graphs: the limits around what the unlimited run needs
+fn generate_c33_graph(rng: &mut Rng, n: usize, tier: &str, out: &mut dyn Write) {
+    register_fixtures();
+    let ids = graph_ids(tier);
+    for id in &ids {
+        writeln!(out, "#case graph-{}", id).unwrap();
+        let (_dir, db) = build_graph(*id);
+        let mut made = 0;
+        let mut tries = 0;
+        let per = n / ids.len() + 1;
+        while made < per && tries < per * 10 {
+            tries += 1;
+            let cy = graph_query(rng, 6, 1);
+            let Some(toks) = model_plan_db(&db, &cy) else {
+                // outside the translated fragment: engine only
+                if rng.chance(1, 4) {
+                    writeln!(out, "limxg {} {} - - ; {}", id, pick_limit(rng, 30), cy).unwrap();
+                }
+                continue;
+            };
+            let (o, emitted) = run_query(&db, &cy, unlimited());
+            let nrows = match &o {
+                Outcome::Rows(r) => r.len(),
+                _ => 3,
+            };
+            for _ in 0..2 {
+                let r = pick_limit(rng, emitted);
+                let c = if rng.chance(1, 2) { "-".to_string() } else { pick_limit(rng, nrows.max(4)) };
+                writeln!(out, "limg {} {} {} - ; {} ; {}", id, r, c, toks, cy).unwrap();
+            }
+            made += 1;
+        }
+    }
 }
 
 /// C33 probes: (query, rows, coll, apply)
@@ -1858,6 +2077,7 @@ fn generate_c33(rng: &mut Rng, n: usize, tier: &str, out: &mut dyn Write) {
             writeln!(out, "limx {} {} {} ; {}", r, c, a, q).unwrap();
         }
     }
+    generate_c33_graph(rng, n / 6, tier, out);
     // soft timeout (child process; nondeterministic by nature: only complete-or-limit is compared)
     writeln!(out, "#case timeout").unwrap();
     const TIMEOUT_QUERIES: &[&str] = &[
